@@ -1,3 +1,4 @@
+import json
 """C11 — Answers after any edit history equal a fresh analysis of the result (structural clauses)."""
 import re
 
@@ -239,6 +240,8 @@ def run(F, res, tier):
                             cand.add(s["place"]["l"])
             if any(sorted_afterwards(f, c_) for c_ in cand if c_ is not None):
                 verdict, why = True, "collected into a Vec that is sorted afterwards"
+        if not verdict and _selects_one_key(F, f, b, t, chain):
+            verdict, why = True, "the consumer looks only at the entry whose key equals a value fixed before the iteration (keys are unique: at most one entry, whatever the order)"
         if not verdict:
             rv = reviewed.get("H4/iter/" + key)
             if rv is None:
@@ -320,6 +323,127 @@ def run(F, res, tier):
     # a query cycle that can happen answers by recovery on a fresh host and panics when the same state is reached by an edit
     from rules import c10 as _c10
     _c10.cycles_are_cut(F, res, rule="H8")
+
+
+def _selects_one_key(F, f, b, t, chain):
+    """An iteration over the entries of a map whose consumer acts only on the entry whose KEY (field 0 of the item) equals a value
+    that does not change during the iteration: `find(|(k, _)| *k == key)`, or a loop whose first decision is `if k != key
+    { continue }` with nothing done on the way round. At most one entry qualifies, so the order cannot matter."""
+    d = FL.Defs(f)
+    last = chain[-1].split("::")[-1] if chain else ""
+
+    def is_eq_call(t2):
+        c = FL.short(callee(t2) or callee_def(t2) or "")
+        return c.rsplit("::", 1)[-1] in ("eq", "ne") and len(t2["args"]) == 2
+
+    if last in ("find", "position", "any", "find_map") and chain:
+        # the predicate closure: returns the result of one equality between item.0 and a capture
+        for b2, t2 in f.calls():
+            if FL.short(callee(t2) or callee_def(t2) or "") != chain[-1] or not f.can_reach(b, [b2]):
+                continue
+            for a in t2["args"][1:]:
+                o = d.origin_op(a)
+                if o.get("k") != "agg" or "closure" not in o["rv"] or o["rv"]["closure"] not in F.fns:
+                    continue
+                cf = F.fns[o["rv"]["closure"]]
+                dc = FL.Defs(cf)
+                calls = [(bb, tt) for bb, tt in cf.calls()]
+                eqs = [(bb, tt) for bb, tt in calls if is_eq_call(tt)]
+                others = [tt for bb, tt in calls if not is_eq_call(tt) and FL.short(callee(tt) or callee_def(tt) or "").rsplit("::", 1)[-1] not in ("deref", "borrow", "as_ref", "clone")]
+                if len(eqs) != 1 or others:
+                    continue
+                deps = [FL.depends(F, cf, dc, x) for x in eqs[0][1]["args"]]
+                sides = [("item" if 2 in dp["args"] else "") + ("cap" if 1 in dp["args"] else "") for dp in deps]
+                if sorted(sides) == ["cap", "item"] and _reads_field0(cf, dc, eqs[0][1]["args"][sides.index("item")]):
+                    return True
+        return False
+    if last == "next":
+        for b2, t2 in f.calls():
+            if not FL.short(callee(t2) or callee_def(t2) or "").endswith("Iterator::next") or not f.can_reach(b, [b2]):
+                continue
+            loops = [f.natural_loop(tl, hd) for tl, hd in f.back_edges() if b2 in f.natural_loop(tl, hd)]
+            if not loops:
+                continue
+            body = min(loops, key=len)
+            item = t2["dest"]["l"]
+            # the first equality test of the body
+            for b3, t3 in f.calls():
+                if b3 not in body or not is_eq_call(t3):
+                    continue
+                deps = [FL.depends(F, f, d, x) for x in t3["args"]]
+
+                def from_item(x):
+                    seen, st = set(), [x]
+                    while st:
+                        o = st.pop()
+                        pl = (o.get("cp") or o.get("mv")) if isinstance(o, dict) else None
+                        if not pl or pl["l"] in seen:
+                            continue
+                        if pl["l"] == item:
+                            return True
+                        seen.add(pl["l"])
+                        for dd in d.defs.get(pl["l"], []):
+                            if dd[2] == "assign":
+                                rv = dd[3]["rv"]
+                                for k_ in ("op", "a", "b"):
+                                    if isinstance(rv.get(k_), dict):
+                                        st.append(rv[k_])
+                                if "place" in rv:
+                                    st.append({"cp": rv["place"]})
+                    return False
+                fi = [from_item(x) for x in t3["args"]]
+                if sorted(fi) != [False, True]:
+                    continue
+                # the switch on its answer: one edge leads back to the loop head without a call (`continue`)
+                for sb in body:
+                    st_ = f.term(sb)
+                    if st_.get("k") != "switch":
+                        continue
+                    o = d.origin_op(st_["op"])
+                    if o.get("k") == "call" and o.get("bb") == b3:
+                        for _v, tgt in FL.switch_edges(st_):
+                            x, hops, clean = tgt, 0, True
+                            while x != b2 and hops < 12 and clean:
+                                tx = f.term(x)
+                                if tx["k"] == "call" and x != b2:
+                                    clean = False
+                                    break
+                                nx = [y for y in f.succ(x) if y in body]
+                                if len(nx) != 1:
+                                    clean = False
+                                    break
+                                x, hops = nx[0], hops + 1
+                            if clean and x == b2:
+                                # nothing between the loop head and this test may act on other entries
+                                pre = [bb for bb, tt in f.calls() if bb in body and bb not in (b2, b3) and f.dominates(bb, b3) and
+                                       FL.short(callee(tt) or callee_def(tt) or "").rsplit("::", 1)[-1] not in ("deref", "borrow", "as_ref", "clone", "into_iter")]
+                                if not pre:
+                                    return True
+        return False
+    return False
+
+
+def _reads_field0(cf, dc, op):
+    """does the operand come out of field 0 of the closure's item argument"""
+    seen, st = set(), [op]
+    while st:
+        o = st.pop()
+        pl = (o.get("cp") or o.get("mv")) if isinstance(o, dict) else None
+        if not pl or (pl["l"], json.dumps(pl["p"], sort_keys=True)) in seen:
+            continue
+        seen.add((pl["l"], json.dumps(pl["p"], sort_keys=True)))
+        if any(isinstance(e, dict) and e.get("f") == 0 for e in pl["p"]):
+            return True
+        for dd in dc.defs.get(pl["l"], []):
+            if dd[2] == "assign":
+                rv = dd[3]["rv"]
+                for k_ in ("op", "a", "b"):
+                    if isinstance(rv.get(k_), dict):
+                        st.append(rv[k_])
+                if "place" in rv:
+                    st.append({"cp": rv["place"]})
+    return False
+
 
 
 def value_equality_rules(F, res, rule="H6", rule2="H7"):
